@@ -38,7 +38,7 @@ class ListModel:
 class C18(core.Check):
     pid = 'C18'
     unproved = [
-        'equal-length slice assignment (__setitem__ with a slice): correspondence + list oracle',
+        'equal-length slice assignment is proved as a method theorem (C18.refines_setSlice) but is not yet an operation of the history theorem refines_history: sequences containing it are covered by correspondence + list oracle',
     ]
     rule = ('correspondence: seeded operation sequences (append, append_multiple, get, slice, set, setslice, delete, flush, '
             'last, past; buckets 1-5, with/without drop_at; valid and malformed operands) replayed step by step on the real '
